@@ -378,7 +378,7 @@ pub fn run(ctx: &Ctx) {
     ctx.listed_seq("bit_balance", "per operation: ones-count of every bit position within 8 sigma of the exact uniform expectation", || ALL_KINDS.iter().map(|k| Stat { kind: *k }).collect(), check_stats);
     ctx.listed_seq("global_freshness", "no scalar value occurs twice among all observed scalars of the run", || vec![0u8], check_global_freshness);
 
-    ctx.exhaustive("injected_candidates", "every operation x candidate queues [bad..., valid] with bad in {0, order-1 (keys), order, order+1, p-2, p-1, 2^256-1}", || {
+    ctx.exhaustive("injected_candidates", "every operation x candidate queues [bad..., valid] with bad in {0, order-1 (keys), order, order+1, p-2, p-1, 2^256-1}, all of them in a row, and runs of 12 / 40 / 200 out-of-range candidates before the first valid one", || {
         let mut v = Vec::new();
         for kind in ALL_KINDS {
             let (order, p) = if kind.is_sm2() { (r2::params().n.clone(), r2::params().p.clone()) } else { (r9::params().n.clone(), r9::params().p.clone()) };
@@ -392,6 +392,12 @@ pub fn run(ctx: &Ctx) {
             let mut q: Vec<Hex> = bads.iter().filter(|b| **b >= order || b.is_zero()).map(|b| Hex(to32(b).to_vec())).collect();
             q.extend([valid(100), valid(101), valid(102)]);
             v.push(History { ops: vec![Op { kind, seed: 99 }], inject: q });
+            // long runs of out-of-range candidates (12, 40, 200 in a row), then valid ones: the sampler must keep rejecting, however long it takes
+            for (j, run) in [12usize, 40, 200].iter().enumerate() {
+                let mut q: Vec<Hex> = (0..*run).map(|t| Hex(to32(&((&order + (t as u32 * 7919 + 1)) % (BigUint::one() << 256))).to_vec())).collect();
+                q.extend([valid(600 + j as u64), valid(601 + j as u64), valid(602 + j as u64)]);
+                v.push(History { ops: vec![Op { kind, seed: 600 + j as u64 }], inject: q });
+            }
             // boundary valid values must be usable or skipped, never cause a failure: 1, 2, order-2
             for (i, b) in [BigUint::one(), BigUint::from(2u32), &order - 2u32].iter().enumerate() {
                 v.push(History { ops: vec![Op { kind, seed: 200 + i as u64 }], inject: vec![Hex(to32(b).to_vec()), valid(300 + i as u64), valid(400 + i as u64), valid(500 + i as u64)] });
